@@ -129,6 +129,13 @@ Definition inside_open_unit (sc : Z) (p : pt) : bool :=
 Definition hyperuniform_crop (sc : Z) (final_points : list pt) : list pt :=
   filter (inside_open_unit sc) final_points.
 
+(* the returned coordinates as exact rationals (X / sc, Y / sc) *)
+Definition to_unit (sc : Z) (p : pt) : Q * Q :=
+  (Qmake (fst p) (Z.to_pos sc), Qmake (snd p) (Z.to_pos sc)).
+
+Definition hyperuniform (sc : Z) (final_points : list pt) : list (Q * Q) :=
+  map (to_unit sc) (hyperuniform_crop sc final_points).
+
 (* ---------- uniform, pointsets.py:78-82 ----------
    rng.uniform(size=(n, 2)): n rows taken from an arbitrary stream of draws. *)
 Definition uniform (n : nat) (draw : nat -> pt) : list pt := map draw (seq 0 n).
